@@ -57,4 +57,8 @@ def apply_xf(name, t, opt, a=()):
         return t.updatePayloads(lambda i, c, p: p + w, depth=d)
     if name == "deepcopy":
         return copy.deepcopy(t)
+    if name == "swap_swap":
+        return t.swapRanks(depth=d).swapRanks(depth=d)
+    if name == "split_flatten":
+        return t.splitUniform(opt["step"], depth=d).flattenRanks(depth=d, coord_style="absolute")
     raise KeyError(name)
